@@ -31,11 +31,11 @@ def keep_table(tag):
     return "\n".join(rows)
 
 
-for tag in ("r3", "r4", "r5", "r6", "r7", "r8", "r9", "r10", "r11"):
+for tag in ("r3", "r4", "r5", "r6", "r7", "r8", "r9", "r10", "r11", "r12"):
     a, b = f"<!-- keep:{tag} -->", f"<!-- /keep:{tag} -->"
     if a in s and b in s:
         s = s[: s.index(a) + len(a)] + "\n" + keep_table(tag) + "\n" + s[s.index(b):]
-for tag in ("r1", "r2", "r3", "r4", "r5", "r6", "r7", "r8", "r9", "r10", "r11"):
+for tag in ("r1", "r2", "r3", "r4", "r5", "r6", "r7", "r8", "r9", "r10", "r11", "r12"):
     a, b = f"<!-- seeds:{tag} -->", f"<!-- /seeds:{tag} -->"
     if a in s and b in s:
         s = s[: s.index(a) + len(a)] + "\n" + table(tag) + "\n" + s[s.index(b):]
